@@ -20,7 +20,9 @@ Record obs := {
   o_log : list stmt;                       (* oldest first *)
   o_tables : list (list (Z * row));        (* by kind, rows by id *)
   o_slots : list (option slotview);
-  o_cached : list (list Z * list Z)        (* by kind: strong cache keys in dict order; ids with a live weak reference, sorted *)
+  o_cached : list (list Z * list Z);       (* by kind: strong cache keys in dict order; ids with a live weak reference, sorted *)
+  o_skip : bool                            (* no observation was possible after this step (first half of an operation the
+                                              harness interleaves with the next one): the model just steps *)
 }.
 
 Record case := { c_cfg : config; c_steps : list (op * obs) }.
@@ -83,7 +85,8 @@ Definition observe (r : res outv) (s : st) : obs :=
      o_tables := map (fun t => sort_by_id (t_rows t)) (tlist (tables s));
      o_slots := map (option_map (view s)) (slots s);
      o_cached := map (fun c => (map fst (c_strong c),
-                                sort_z (map fst (filter (fun e => alive s [] (snd e)) (c_weak c))))) (tlist (caches s)) |}.
+                                sort_z (map fst (filter (fun e => alive s [] (snd e)) (c_weak c))))) (tlist (caches s));
+     o_skip := false |}.
 
 (* index of the first step on which model and implementation differ *)
 Fixpoint first_bad (cfg : config) (s : st) (steps : list (op * obs)) (n : nat) : option nat :=
@@ -91,7 +94,7 @@ Fixpoint first_bad (cfg : config) (s : st) (steps : list (op * obs)) (n : nat) :
   | [] => None
   | (o, expected) :: rest =>
       let '(r, s') := step cfg s o in
-      if obs_eqb (observe r s') expected then first_bad cfg s' rest (S n) else Some n
+      if o_skip expected || obs_eqb (observe r s') expected then first_bad cfg s' rest (S n) else Some n
   end.
 
 Definition agree (c : case) : bool :=
